@@ -1,0 +1,172 @@
+//go:build verif
+
+package util
+
+// Contracts for the govc verifier (see /verif/DESIGN.md). Comment-only: declares nothing.
+
+// ---- C08 / C15: name keys of the create/drop tables ---------------------------------------
+
+//@ spec dbOrDefault(d string) string = ite(d == "", "default", d)
+//@ spec collKey(d, c string) string = dbOrDefault(d) + "_" + c
+//@ spec partKey(d, c, p string) string = dbOrDefault(d) + "_" + c + "_" + p
+
+//@ func GetCreateInfoKey
+//@   props C08 C15
+//@   ensures result == key + "_c"
+//@   modifies nothing
+//@   panics never
+
+//@ func GetDropInfoKey
+//@   props C08 C15
+//@   ensures result == key + "_d"
+//@   modifies nothing
+//@   panics never
+
+//@ func GetCollectionInfoKeys
+//@   props C08 C15
+//@   ensures result0 == collKey(dbName, collectionName) + "_c"
+//@   ensures result1 == collKey(dbName, collectionName) + "_d"
+//@   modifies nothing
+//@   panics never
+
+//@ func GetPartitionInfoKeys
+//@   props C08 C15
+//@   ensures result0 == partKey(dbName, collectionName, partitionName) + "_c"
+//@   ensures result1 == partKey(dbName, collectionName, partitionName) + "_d"
+//@   modifies nothing
+//@   panics never
+
+//@ func GetDBInfoKeys
+//@   props C08 C15
+//@   ensures result0 == dbOrDefault(dbName) + "_c"
+//@   ensures result1 == dbOrDefault(dbName) + "_d"
+//@   modifies nothing
+//@   panics never
+
+// A create key never equals a drop key (tables are separate maps, but the suffix also differs).
+//@ lemma createKeyNotDropKey C08 C15: forall a string, b string :: a + "_c" != b + "_d"
+
+// Key injectivity. Names without '_' never collide; with '_' they do (known finding F12:
+// '_' is both the separator and a legal identifier character).
+//@ lemma collKeyInjectiveNoUnderscore C15: forall d1 string, c1 string, d2 string, c2 string :: !contains(d1, "_") && !contains(c1, "_") && !contains(d2, "_") && !contains(c2, "_") && d1 != "" && d2 != "" && collKey(d1, c1) == collKey(d2, c2) ==> d1 == d2 && c1 == c2
+//@ lemma collKeyInjective C15: forall d1 string, c1 string, d2 string, c2 string :: d1 != "" && d2 != "" && c1 != "" && c2 != "" && collKey(d1, c1) == collKey(d2, c2) ==> d1 == d2 && c1 == c2
+
+// ---- C10 / C19: full collection names -------------------------------------------------------
+
+//@ func GetFullCollectionName
+//@   props C10 C19
+//@   ensures result == databaseName + "." + collectionName
+//@   modifies nothing
+//@   panics never
+
+// Precondition "exactly one '.'" is an obligation at every call site under contract.
+//@ func GetCollectionNameFromFull
+//@   props C10 C19
+//@   requires [one-dot] contains(fullName, ".") && !contains(substr(fullName, indexOf(fullName, ".") + 1, len(fullName)), ".")
+//@   ensures result0 == substr(fullName, 0, indexOf(fullName, "."))
+//@   ensures result1 == substr(fullName, indexOf(fullName, ".") + 1, len(fullName))
+//@   ensures result0 + "." + result1 == fullName
+//@   modifies nothing
+//@   panics never
+
+// ---- C16: channel-count mapping ------------------------------------------------------------------
+
+//@ func average
+//@   props C16
+//@   requires (sourceCnt > 0 && targetCnt > 0) || (sourceCnt == 0 && targetCnt == 0)
+//@   ensures [equal-is-one] sourceCnt == targetCnt ==> result == 1
+//@   ensures [ceil-source] sourceCnt > targetCnt ==> result * targetCnt >= sourceCnt && (result - 1) * targetCnt < sourceCnt
+//@   ensures [ceil-target] sourceCnt < targetCnt ==> result * sourceCnt >= targetCnt && (result - 1) * sourceCnt < targetCnt
+//@   ensures result >= 1
+//@   modifies nothing
+//@   panics never
+
+// Counting: cntSS(S, m, v) = number of keys k in the finite set S with m[k] == v.
+// The four axioms are the definitional facts about cardinality used by the proofs
+// (math lemmas, listed in the trusted base; true of |{k in S : m[k] = v}| for finite S).
+//@ ufunc cntSS ((Array String Bool) (Array String String) String) Int
+//@ smtaxiom cntEmpty: (forall ((m (Array String String)) (v String)) (! (= (cntSS ((as const (Array String Bool)) false) m v) 0) :pattern ((cntSS ((as const (Array String Bool)) false) m v))))
+//@ smtaxiom cntAddKey: (forall ((s (Array String Bool)) (m (Array String String)) (v String) (k String)) (! (=> (not (select s k)) (= (cntSS (store s k true) m v) (+ (cntSS s m v) (ite (= (select m k) v) 1 0)))) :pattern ((cntSS (store s k true) m v))))
+//@ smtaxiom cntStoreOutside: (forall ((s (Array String Bool)) (m (Array String String)) (v String) (k String) (x String)) (! (=> (not (select s k)) (= (cntSS s (store m k x) v) (cntSS s m v))) :pattern ((cntSS s (store m k x) v))))
+//@ smtaxiom cntStoreInside: (forall ((s (Array String Bool)) (m (Array String String)) (v String) (k String) (x String)) (! (=> (select s k) (= (cntSS s (store m k x) v) (+ (cntSS s m v) (ite (= x v) 1 0) (- (ite (= (select m k) v) 1 0))))) :pattern ((cntSS s (store m k x) v))))
+
+//@ spec cntOf(m map[string]string, v string) mathint = cntSS(domain(m), values(m), v)
+
+// Shape: exactly one of the three maps exists, chosen by the count relation; averageCnt = ceil(larger/smaller).
+//@ spec shapeCM(c *ChannelMapping) bool = c != nil && c.averageCnt >= 1 && ((c.sameMapping != nil && c.sourceMapping == nil && c.targetMapping == nil && c.sourceCnt == c.targetCnt && c.averageCnt == 1) || (c.sameMapping == nil && c.sourceMapping != nil && c.targetMapping == nil && c.sourceCnt > c.targetCnt && c.targetCnt > 0 && c.averageCnt * c.targetCnt >= c.sourceCnt && (c.averageCnt - 1) * c.targetCnt < c.sourceCnt) || (c.sameMapping == nil && c.sourceMapping == nil && c.targetMapping != nil && c.sourceCnt < c.targetCnt && c.sourceCnt > 0 && c.averageCnt * c.sourceCnt >= c.targetCnt && (c.averageCnt - 1) * c.sourceCnt < c.targetCnt))
+// Balance: no channel of the smaller side serves more than averageCnt channels of the other side; one-to-one when equal.
+//@ spec balancedCM(c *ChannelMapping) bool = (c.sameMapping != nil ==> (forall k1 string, k2 string :: k1 in c.sameMapping && k2 in c.sameMapping && c.sameMapping[k1] == c.sameMapping[k2] ==> k1 == k2)) && (c.sourceMapping != nil ==> (forall v string :: cntOf(c.sourceMapping, v) <= c.averageCnt)) && (c.targetMapping != nil ==> (forall v string :: cntOf(c.targetMapping, v) <= c.averageCnt))
+// freeSlot: the pair may still be assigned without breaking the balance.
+//@ spec freeSlot(c *ChannelMapping, source, target string) bool = (c.sameMapping != nil ==> !(exists k string :: k in c.sameMapping && c.sameMapping[k] == target)) && (c.sameMapping == nil && c.sourceMapping != nil ==> cntOf(c.sourceMapping, target) < c.averageCnt) && (c.sameMapping == nil && c.sourceMapping == nil ==> cntOf(c.targetMapping, source) < c.averageCnt)
+
+//@ func NewChannelMapping
+//@   props C16
+//@   requires sourceCnt >= 0 && targetCnt >= 0
+//@   ensures shapeCM(result) && balancedCM(result) && freshRef(result)
+//@   ensures forall k string :: !(k in result.sameMapping) && !(k in result.sourceMapping) && !(k in result.targetMapping)
+//@   modifies nothing
+//@   panics never
+
+//@ func (*ChannelMapping).GetMapKey
+//@   props C16
+//@   requires shapeCM(c)
+//@   ensures result == ite(c.targetMapping != nil, target, source)
+//@   modifies nothing
+//@   panics never
+
+//@ func (*ChannelMapping).GetMapValue
+//@   props C16
+//@   requires shapeCM(c)
+//@   ensures result == ite(c.targetMapping != nil, source, target)
+//@   modifies nothing
+//@   panics never
+
+//@ func (*ChannelMapping).UsingSourceKey
+//@   props C16
+//@   requires shapeCM(c)
+//@   ensures result == (c.targetMapping == nil)
+//@   modifies nothing
+//@   panics never
+
+//@ func (*ChannelMapping).AverageCnt
+//@   props C16
+//@   requires c != nil
+//@   ensures result == c.averageCnt
+//@   modifies nothing
+//@   panics never
+
+//@ func (*ChannelMapping).CheckKeyNotExist
+//@   props C16
+//@   requires shapeCM(c)
+//@   ensures result == freeSlot(c, source, target)
+//@   modifies nothing
+//@   panics never
+//@   loop 1 invariant forall k string :: visited(k) ==> c.sameMapping[k] != target
+//@   loop 2 invariant targetCnt == cntSS(visitedSet(), values(c.sourceMapping), target)
+//@   loop 2 invariant 0 <= targetCnt && targetCnt <= visitedCount()
+//@   loop 3 invariant sourceCnt == cntSS(visitedSet(), values(c.targetMapping), source)
+//@   loop 3 invariant 0 <= sourceCnt && sourceCnt <= visitedCount()
+
+// Total on existing keys, stable: an assignment never changes once made; balance is preserved.
+//@ func (*ChannelMapping).AddKeyValue
+//@   props C16
+//@   requires shapeCM(c) && balancedCM(c)
+//@   requires [slot-free] freeSlot(c, source, target)
+//@   requires [key-new] c.sameMapping != nil ==> !(source in c.sameMapping)
+//@   requires [key-new] c.sourceMapping != nil ==> !(source in c.sourceMapping)
+//@   requires [key-new] c.targetMapping != nil ==> !(target in c.targetMapping)
+//@   ensures shapeCM(c) && balancedCM(c)
+//@   ensures [assigned] c.targetMapping == nil ==> (source in c.sameMapping || source in c.sourceMapping) && (c.sameMapping != nil ==> c.sameMapping[source] == target) && (c.sourceMapping != nil ==> c.sourceMapping[source] == target)
+//@   ensures [assigned] c.targetMapping != nil ==> target in c.targetMapping && c.targetMapping[target] == source
+//@   ensures [stable] forall k string :: (old(k in c.sameMapping) ==> k in c.sameMapping && c.sameMapping[k] == old(c.sameMapping[k])) && (old(k in c.sourceMapping) ==> k in c.sourceMapping && c.sourceMapping[k] == old(c.sourceMapping[k])) && (old(k in c.targetMapping) ==> k in c.targetMapping && c.targetMapping[k] == old(c.targetMapping[k]))
+//@   modifies c.sameMapping[*], c.sourceMapping[*], c.targetMapping[*]
+//@   panics never
+
+//@ func (*ChannelMapping).CheckKeyExist
+//@   props C16
+//@   requires shapeCM(c)
+//@   ensures c.targetMapping == nil && c.sameMapping != nil ==> result == (source in c.sameMapping && c.sameMapping[source] != "" && c.sameMapping[source] == target)
+//@   ensures c.targetMapping == nil && c.sourceMapping != nil ==> result == (source in c.sourceMapping && c.sourceMapping[source] != "" && c.sourceMapping[source] == target)
+//@   ensures c.targetMapping != nil ==> result == (target in c.targetMapping && c.targetMapping[target] != "" && c.targetMapping[target] == source)
+//@   modifies nothing
+//@   panics never
